@@ -136,7 +136,8 @@ class C03(Prop):
         ctx = dict(tool=case["tool"], text=text[:500], params=case.get("params"), flags=case.get("flags"),
                    known=case.get("known"), mandatory=case.get("mandatory"))
         if "err" in obs:
-            if obs["err"] == "ConflictingImportsError" and _real_conflict(case):
+            if (obs["err"] == "ConflictingImportsError" or (obs["err"].startswith("cli-exit") and "ConflictingImportsError" in obs.get("errmsg", ""))) \
+                    and _real_conflict(case):
                 # a deliberate refusal ("Refusing to pretty-print because of conflicting imports"), not an internal
                 # error: the import the database asks for binds a name that one of the file's own top-level imports
                 # binds to something else (confirmed here independently of pyflyby)
